@@ -28,7 +28,7 @@ noncomputable def helperReal (offset : ℝ) (d : HelperDelta ℝ) : Local ℝ :=
 `directional_offset_by(0, offset)`. -/
 noncomputable def realWcs {Sky : Type} (toPix : Sky → Pt ℝ) (toSky : Pt ℝ → Sky) (northOf : Sky → Sky)
     (offset : ℝ) : Wcs Sky ℝ :=
-  ⟨toPix, toSky, fun q => helperReal offset (helperDelta toPix northOf q), toPix⟩
+  ⟨toPix, toSky, fun q => helperReal offset (helperDelta toPix northOf q)⟩
 
 theorem norm_mk (x y : ℝ) : ‖(⟨x, y⟩ : ℂ)‖ = Real.sqrt (x ^ 2 + y ^ 2) := by
   rw [Complex.norm_def, Complex.normSq_mk]
